@@ -748,6 +748,7 @@ func TestVerifC03(t *testing.T) {
 		e.dumpSQL()
 		e.scan(out)
 	}
+	nameMap := map[string]string{}
 	replayFile := func(fn string) {
 		f, err := os.Open(fn)
 		if err != nil {
@@ -761,6 +762,17 @@ func TestVerifC03(t *testing.T) {
 			if json.Unmarshal(sc.Bytes(), &op) == nil {
 				switch op["op"] {
 				case "kidmap", "kids", "entrypath", "save", "vaultpath":
+				case "new": // the engine draws a new uuid: remember old -> new for later link ops
+					old, _ := op["keyName"].(string)
+					emit(op)
+					if n, _ := op["keyName"].(string); old != "" && n != "" {
+						nameMap[old] = n
+					}
+				case "link":
+					if n, ok := nameMap[fmt.Sprint(op["keyName"])]; ok {
+						op["keyName"] = n
+					}
+					emit(op)
 				default:
 					emit(op)
 				}
